@@ -975,6 +975,11 @@ fn build_sdes_body(sdes: &SourceDescription) -> RtpResult<Vec<u8>> {
             if item.text.len() > 255 {
                 return Err(RtpError::InvalidRtcp("SDES item text longer than 255 bytes"));
             }
+            // Item type 0 is the end-of-list marker: written as an item it would cut the
+            // chunk short for every receiver.
+            if item.ty == 0 {
+                return Err(RtpError::InvalidRtcp("SDES item type 0 is the list terminator"));
+            }
             body.push(item.ty);
             body.push(item.text.len() as u8);
             body.extend_from_slice(item.text.as_bytes());
